@@ -25,7 +25,7 @@ from checks import common, plug
 PROPERTY = "C19"
 LEVEL = "exploration"
 MODES = ["O0"]
-TIERS = {"quick": {"runs": 500, "wall": 55}, "thorough": {"runs": 16000, "wall": 1500}}
+TIERS = {"quick": {"runs": 1000, "wall": 55}, "thorough": {"runs": 16000, "wall": 1500}}
 RULE = ("plan = 2..6 PELs (some damaged) + plugin population with per-call fault tables + optional registry + history "
         "of 3..20 decode operations (-f, -a, -l, --bmc-id, parsePEL; -P/-r/-x variants); every operation is compared "
         "with the same operation in a pristine module set.  distinct_nontrivial counts distinct abstract histories "
